@@ -436,6 +436,33 @@ REVIEWED_PANICS = {
 }
 
 
+def ob_bitmask_access(run, oid):
+    """who looks at the raw storage words of a signer bitmask"""
+    prog = run.program("lib")
+    o = run.ob(oid, "signer bitmasks are read through the length-bounded bit API (iter_ones, get, len); their raw storage words are touched only by the wire encoder / decoder / size function",
+               "the decoder truncates a bitmask's LENGTH but storage bits beyond it survive: anything that scans the raw words sees signers that are not part of the bitmask "
+               "(index beyond the validator set -> panic; stake of validators who did not sign)", floor=3)
+    allowed = {"bitvec_size", "read_bitvec", "write_bitvec"}
+    raw = ("as_raw_slice", "as_raw_mut_slice", "into_vec", "from_vec", "try_from_vec", "domain", "domain_mut", "as_bitptr", "as_mut_bitptr", "set_len", "get_unchecked", "set_unchecked", "into_boxed_bitslice", "as_raw_ptr")
+    n = 0
+    for d, b in sorted(prog.bodies.items()):
+        if b.generated:
+            continue
+        for c in b.calls():
+            if "bitvec" in c.name and c.name.rsplit("::", 1)[-1] in raw:
+                n += 1
+                root = K.root_fn(d).rsplit("::", 1)[-1]
+                o.check(root in allowed, "%s|raw-bitmask-access|%s" % (fshort(K.root_fn(d)), c.name.rsplit("::", 1)[-1]), "raw storage access only in the wire encoder / decoder / size function", c.span)
+    o.check(n >= 3, "raw-bitmask-access|sites", "%d raw storage accesses examined" % n, "")
+    sb = prog.body(A + "crypto::aggsig::AggregateSignature::signers")
+    if sb is None:
+        o.missing("AggregateSignature::signers")
+    else:
+        fam = prog.family(sb.defpath)
+        names = set(c.name.rsplit("::", 1)[-1] for fb in fam for c in fb.calls())
+        o.check(not (names & set(raw)), "AggregateSignature::signers|bounded-api", "signers() enumerates the set bits through the length-bounded API (iter_ones / get / indexing below len)", sb.span, {"calls": sorted(names)[:8]})
+
+
 def ob_no_panic(run, oid):
     prog = run.program("lib")
     o = run.ob(oid, "no unreviewed panic site is reachable from ValidatedVote::try_new / ValidatedCert::try_new",
@@ -500,6 +527,7 @@ def check(run):
     ob_sig_table(run, "O9.6")
     ob_verify_bytes(run, "O9.7")
     ob_no_panic(run, "O9.8")
+    ob_bitmask_access(run, "O9.12")
     ob_before_lock(run, "O9.9")
     # "all bitmask lengths ... rejected with an error, never a panic": the decoders every vote and certificate comes through
     # (bounded indices, bounded bitmask, one exact door)
